@@ -301,7 +301,7 @@ def run(ctx):
 
     lib = getlib()
     T = ctx.tier == "thorough"
-    kinds = ("AnyNode", "Node", "User", "Falsy")
+    kinds = ("AnyNode", "Node", "User", "Falsy", "Light")
     idx = 0
     for n in range(1, (6 if T else 5) + 1):
         for par in gen.ordered_trees(n):
@@ -309,7 +309,7 @@ def run(ctx):
             if not ctx.mine(idx):
                 continue
             rng = ctx.rng("attrs", idx)
-            kind = kinds[idx % 4]
+            kind = kinds[idx % len(kinds)]
             attrs = c10.small_attrs(rng, n, json_only=True)
             check_one(ctx, lib, rng, par, attrs, kind, {"par": list(par), "kind": kind, "attrs_repr": repr(attrs)})
     nrand = (40000 if T else 400) // ctx.nshards + 1
@@ -317,7 +317,7 @@ def run(ctx):
         rng = ctx.rng("rand", r)
         n = rng.randint(1, 25)
         par, _ = gen.random_tree(rng, n)
-        kind = kinds[r % 4]
+        kind = kinds[r % len(kinds)]
         attrs = [gen.random_attrs(rng, json_only=True, maxkeys=6) for _ in range(n)]
         check_one(ctx, lib, rng, par, attrs, kind, {"par": list(par), "kind": kind, "attrs_repr": repr(attrs)})
 
